@@ -111,3 +111,92 @@ func verifObserveTreeShaking(c *linkerContext) {
 	}
 	obs(d)
 }
+
+// ---- chunk order observation (after computeChunks) ----
+
+type VerifOrderRec struct {
+	Target int
+	IsStmt bool
+	ExtDyn bool
+}
+
+type VerifOrderPart struct {
+	IsLive  bool
+	Include bool
+	Recs    []VerifOrderRec
+}
+
+type VerifOrderFile struct {
+	IsJS     bool
+	InChunk  bool
+	CanSplit bool
+	Parts    []VerifOrderPart
+}
+
+type VerifOrderChunk struct {
+	Files        []VerifOrderFile // indexed by source index
+	Roots        [][3]int         // (source index, distance, tie breaker), unsorted (map order)
+	FilesInOrder []int
+	PartsInOrder [][3]int // (source index, begin, end)
+}
+
+var verifOrderObserver func(VerifOrderChunk)
+
+// VerifSetChunkOrderObserver installs (or with nil removes) the observer; it is called once per JS chunk.
+func VerifSetChunkOrderObserver(f func(VerifOrderChunk)) {
+	verifShakeMutex.Lock()
+	verifOrderObserver = f
+	verifShakeMutex.Unlock()
+}
+
+func verifObserveChunkOrder(c *linkerContext) {
+	verifShakeMutex.Lock()
+	obs := verifOrderObserver
+	verifShakeMutex.Unlock()
+	if obs == nil {
+		return
+	}
+	for i := range c.chunks {
+		chunk := &c.chunks[i]
+		chunkRepr, ok := chunk.chunkRepr.(*chunkReprJS)
+		if !ok {
+			continue
+		}
+		d := VerifOrderChunk{}
+		for sourceIndex := range c.graph.Files {
+			file := &c.graph.Files[sourceIndex]
+			f := VerifOrderFile{}
+			if repr, ok := file.InputFile.Repr.(*graph.JSRepr); ok {
+				f.IsJS = true
+				f.InChunk = chunk.entryBits.Equals(file.EntryBits)
+				f.CanSplit = repr.Meta.Wrap == graph.WrapNone
+				for _, part := range repr.AST.Parts {
+					p := VerifOrderPart{IsLive: part.IsLive, Include: c.shouldIncludePart(repr, part)}
+					for _, idx := range part.ImportRecordIndices {
+						record := &repr.AST.ImportRecords[idx]
+						if !record.SourceIndex.IsValid() {
+							continue
+						}
+						p.Recs = append(p.Recs, VerifOrderRec{
+							Target: int(record.SourceIndex.GetIndex()),
+							IsStmt: record.Kind == ast.ImportStmt,
+							ExtDyn: c.isExternalDynamicImport(record, uint32(sourceIndex)),
+						})
+					}
+					f.Parts = append(f.Parts, p)
+				}
+			}
+			d.Files = append(d.Files, f)
+		}
+		for sourceIndex := range chunk.filesWithPartsInChunk {
+			d.Roots = append(d.Roots, [3]int{int(sourceIndex), int(c.graph.Files[sourceIndex].DistanceFromEntryPoint), int(c.graph.StableSourceIndices[sourceIndex])})
+		}
+		for _, s := range chunkRepr.filesInChunkInOrder {
+			d.FilesInOrder = append(d.FilesInOrder, int(s))
+		}
+		for _, r := range chunkRepr.partsInChunkInOrder {
+			d.PartsInOrder = append(d.PartsInOrder, [3]int{int(r.sourceIndex), int(r.partIndexBegin), int(r.partIndexEnd)})
+		}
+		obs(d)
+	}
+}
